@@ -217,6 +217,7 @@ type monC14 struct {
 	Alts  []refAsm
 	Depth int
 	Max   int
+	Bound uint32 // mode "unbound": peer instance the first well-formed fragment came from (0: none yet)
 }
 
 type c14Sym struct {
@@ -276,8 +277,16 @@ func verifC14Alphabet(w *verifWorld, payload string) []c14Sym {
 		syms = append(syms, c14Sym{Name: "short3", Msg: []byte("?OTR|abc"), Garbage: true})
 		fs := snd.C.version.fragmentPrefix(1, 3, snd.C.ourInstanceTag+1, snd.C.theirInstanceTag)
 		syms = append(syms, c14Sym{Name: "foreignS", Msg: append(append(fs, "yy"...), ','), Foreign: true})
-		fr := snd.C.version.fragmentPrefix(2, 3, snd.C.ourInstanceTag, snd.C.theirInstanceTag+1)
-		syms = append(syms, c14Sym{Name: "foreignR", Msg: append(append(fr, "yy"...), ','), Foreign: true})
+		if snd.C.theirInstanceTag != 0 {
+			fr := snd.C.version.fragmentPrefix(2, 3, snd.C.ourInstanceTag, snd.C.theirInstanceTag+1)
+			syms = append(syms, c14Sym{Name: "foreignR", Msg: append(append(fr, "yy"...), ','), Foreign: true})
+		} else {
+			// receiver not yet bound to a peer instance: pieces of another instance that would continue stream M
+			own, other := []byte(fmt.Sprintf("|%08x|", snd.C.ourInstanceTag)), []byte(fmt.Sprintf("|%08x|", snd.C.ourInstanceTag+1))
+			for i := 1; i < 3; i++ {
+				syms = append(syms, c14Sym{Name: fmt.Sprintf("F%d", i+1), Msg: bytes.Replace(M[i], own, other, 1), Foreign: true})
+			}
+		}
 	}
 	return syms
 }
@@ -323,6 +332,14 @@ func verifC14Sys(id string, seed int64) *verifSys {
 	var syms []c14Sym
 	var once sync.Once
 	base := func() *verifWorld {
+		if mode == "unbound" {
+			// first contact: the receiver has never seen a message; the first well-formed fragment tells it which
+			// instance of the peer it is talking to, and pieces of any other instance are none of its business
+			w := verifNewPair(verifPairCfg{Seed: seed, PolA: verifPolFor(v), PolB: verifPolFor(v), VA: v, VB: v})
+			w.P[0].C.GetOurInstanceTag()
+			w.P[1].C.GetOurInstanceTag()
+			return w
+		}
 		w := verifEstablished(seed, v, 0)
 		// make the clock quiet: no heartbeats
 		return w
@@ -352,9 +369,23 @@ func verifC14Sys(id string, seed int64) *verifSys {
 			m.Depth++ // only bounded searches count steps (an unbounded one must be able to close the state graph)
 		}
 		sym := syms[e.I]
+		if mode == "unbound" && !sym.Garbage && sym.Whole == nil {
+			// whose pieces are foreign depends on who spoke first
+			if f, ok := refParseFragment(sym.Msg); ok && f.V3 {
+				if m.Bound == 0 {
+					m.Bound = f.Snd
+				}
+				sym.Foreign = f.Snd != m.Bound
+			}
+		}
 		r := w.P[1].Receive(sym.Msg)
 		if r.Panic != "" {
 			return []verifFinding{{"C14:panic:" + verifPanicClass(r.Panic), r.Panic}}
+		}
+		if mode == "unbound" && sym.Garbage && m.Bound == 0 {
+			// whether a malformed piece with valid tags in its header tells the receiver who its peer is is C15's
+			// question; the reassembly model follows the implementation there
+			m.Bound = w.P[1].C.theirInstanceTag
 		}
 		obs := verifC14Observed(r, payload)
 		// reference alternatives
@@ -478,14 +509,14 @@ func init() {
 			return fs
 		},
 		Run: func(r *verifReport) {
-			r.Rule = "(a) grid: message length × EVERY fragment size 0..65535 × both header formats; pieces parsed and reassembled by an independent implementation of the fragment format, and fed to a real receiver (all sizes for lengths ≤ 1024; for longer messages when ≤ 64 pieces or size ≤ 300); non-trivial = in the property's domain (room for ≥1 payload byte, ≤ 65535 pieces) and actually fragmented. (b) arrival sequences: complete state-graph search over an alphabet of next/restart/wrong-total/illegal-index/non-numeric/garbage/foreign-instance fragments and whole messages, implementation compared at every step with the specification's reassembler (nondeterministic only in whether a whole message forgets a partial stream); plus the same without state matching to a fixed depth"
+			r.Rule = "(a) grid: message length × EVERY fragment size 0..65535 × both header formats; pieces parsed and reassembled by an independent implementation of the fragment format, and fed to a real receiver (all sizes for lengths ≤ 1024; for longer messages when ≤ 64 pieces or size ≤ 300); non-trivial = in the property's domain (room for ≥1 payload byte, ≤ 65535 pieces) and actually fragmented. (b) arrival sequences: complete state-graph search over an alphabet of next/restart/wrong-total/illegal-index/non-numeric/garbage/foreign-instance fragments and whole messages, implementation compared at every step with the specification's reassembler (nondeterministic only in whether a whole message forgets a partial stream); plus the same without state matching to a fixed depth, and from first contact (receiver not yet bound to a peer instance: the first well-formed fragment decides whose pieces are foreign)"
 			r.Assumptions = []string{"payloads are OTR error messages (processing reports the exact content) and, in a second variant, real data messages", "fragment sizes and lengths outside the listed lengths are not covered"}
 			// (b) first: cheap
 			depthND := 4
 			if r.Tier == "thorough" {
 				depthND = 5
 			}
-			for _, id := range []string{"v3/err/d0/dedup", "v2/err/d0/dedup", fmt.Sprintf("v3/err/d%d/nodedup", depthND), fmt.Sprintf("v2/err/d%d/nodedup", depthND), "v3/data/d5/dedup", "v2/data/d5/dedup"} {
+			for _, id := range []string{"v3/err/d0/dedup", "v2/err/d0/dedup", fmt.Sprintf("v3/err/d%d/nodedup", depthND), fmt.Sprintf("v2/err/d%d/nodedup", depthND), "v3/data/d5/dedup", "v2/data/d5/dedup", "v3/err/d0/unbound"} {
 				r.explore(verifC14Sys(id, r.Seed))
 			}
 			// (a)
